@@ -31,6 +31,7 @@ class RepoWorld(World):
         self.isinstance_hooks, self.getattr_hooks, self.call_ref_hooks = [], [], []
         self.method_hooks, self.getitem_hooks, self.setitem_hooks, self.truthy_hooks = [], [], [], []
         self.hasattr_hooks, self.callable_hooks = [], []
+        self.eq_hooks = []
         self.binop_hooks, self.compare_hooks, self.unary_hooks, self.with_call_hooks, self.ref_getattr_hooks = [], [], [], [], []
         self.path_getters = {}
 
@@ -125,6 +126,13 @@ class RepoWorld(World):
         return super().ref_setattr(ex, base, attr, v)
 
     def ref_eq(self, ex, a, b):
+        return None
+
+    def eq_hook(self, ex, a, b):
+        for h in self.eq_hooks:
+            r = h(ex, a, b)
+            if r is not None:
+                return r
         return None
 
     def call_path(self, ex, path, args, kwargs):
